@@ -1,5 +1,23 @@
-"""Which rules decide which property (DESIGN.md sections 0 and 4)."""
+"""
+Which rules decide which property (DESIGN.md sections 0 and 4).  Every entry states the structural clause that is
+decided and what is NOT decided; the behaviour as a whole (equality of values after a round trip, byte identity ...)
+is never claimed.
+"""
+from functools import partial as P
+
+from sa.rules import align as A
+from sa.rules import call as C
+from sa.rules import cli as CLI
+from sa.rules import cli2 as C2
+from sa.rules import ctor as CT
+from sa.rules import det as D
 from sa.rules import file as F
+from sa.rules import mod as M
+from sa.rules import null as N
+from sa.rules import order as O
+from sa.rules import table as TB
+from sa.rules import typeflow as T
+from sa.rules import visit as V
 
 SPECS = {}
 
@@ -9,69 +27,186 @@ def spec(pid, title, rules, explanation, floors=None, technique="", not_decided=
                       technique=technique, not_decided=not_decided, assumptions=assumptions or [])
 
 
+def named(f, name, **kw):
+    g = P(f, **kw)
+    g.__name__ = name
+    return g
+
+
+DET1_ACCEPTED = {
+    ("parser_utils._join_non_none", "iter:all_keys"):
+        "inserts into a parameter dict (level L2) whose key order is unobservable: DET-1b checks that nothing iterates / serialises such dicts",
+}
+
+spec("C01", "Docstring round trip",
+     [TB.rule_table_style, N.rule_null2],
+     "Necessary conditions decided on the source: (TABLE-style) per docstring style, every section header / line marker the emitter writes contains a "
+     "detection token of that style, none of a style detected earlier, and is a header the style's scanner splits on; ARG/RETURN token tables are subsets of "
+     "TOKENS. (NULL-2) the pending-parameter slot [None, {}] of the ReST parser cannot reach the name post-processing, which dereferences the name, without a "
+     "test of its name element (the 'documents only a return value' crash).",
+     floors={"TABLE-style": 9, "NULL-2": 1},
+     technique="constant folding of the repository's token tables and templates; def-use / CFG reachability of a None literal through callee summaries",
+     not_decided="IR equality after emit->parse (values); prose that itself contains a marker of another style; exceptions other than the definite None dereference")
+
+spec("C02", "Config-class round trip",
+     [named(O.rule_order, "rule_order_class", only=("emit.class_",)), TB.rule_table_cvar],
+     "Necessary conditions: (ORDER) the class emitter produces exactly one attribute per parameter, in mapping order, never None, named by the parameter's key, with "
+     "no filter/sort between the mapping and the attribute list; (TABLE-cvar) the ':cvar' marker and the reserved 'return_type' attribute written by the class "
+     "emitter are exactly what the class and function parsers substitute / pop back.",
+     floors={"ORDER": 1, "TABLE-cvar": 4},
+     technique="structural sequence analysis of the emitter (map/filter/comprehension chain), return-path analysis of the element function, constant folding",
+     not_decided="preservation of values/types/prose; the documented zero-value normalisation; the parser's merge of docstring- and attribute-derived entries")
+
+spec("C03", "Function / method round trip",
+     [named(O.rule_order, "rule_order_function", only=("emit.function",)), A.rule_align_emit, A.rule_align_parse, TB.rule_table_kind, N.rule_null1, N.rule_null2],
+     "Necessary conditions: (ORDER) one argument per non-**kwargs parameter in order, named by the key, with the name-only **kwargs partition and its complement both "
+     "consumed; (ALIGN-emit) defaults/kw_defaults are built one per argument from the same sequence (symbolic length identities over all paths); (ALIGN-parse) "
+     "signature defaults are padded to exactly the argument count and keep their positions; (TABLE-kind) self/cls/static and the **kwargs suffix agree between "
+     "emitter and recognisers; (NULL-1/2) no definite None dereference on the return-only / prose-less return paths.",
+     floors={"ORDER": 2, "ALIGN-emit": 3, "ALIGN-parse": 1, "TABLE-kind": 3, "NULL-1": 1},
+     technique="linear-form length algebra evaluated path-sensitively; structural sequence analysis; constant folding; None-return summaries",
+     not_decided="equality of types/prose/defaults, return interpolation text, indent levels")
+
+spec("C04", "argparse round trip",
+     [named(O.rule_order, "rule_order_argparse", only=("emit.argparse_function",)), TB.rule_table_argparse],
+     "Necessary conditions: (ORDER) exactly one add_argument call per parameter, in order, carrying '--<key>'; (TABLE-argparse) every keyword by which the emitter "
+     "carries IR information is read by the parser, the '--' prefix added is the prefix stripped, the recogniser predicates test both receiver and attribute the "
+     "emitter builds, written action constants are understood.",
+     floors={"ORDER": 1, "TABLE-argparse": 10},
+     technique="structural sequence analysis; constant/keyword table extraction from writer and reader",
+     not_decided="required/default/Optional interplay, choices quoting, numeric vs string defaults (value-level)")
+
+spec("C06", "Emitted code is valid Python",
+     [A.rule_align_emit, O.rule_order, CT.rule_ctor],
+     "Necessary conditions, for all inputs: (ALIGN-emit) every ast.arguments(...) the package builds satisfies Python's length invariants and aligns defaults with "
+     "arguments as symbolic identities; (ORDER) names/order/count of attributes, arguments and options are those of the IR by construction; (CTOR) every ast node "
+     "construction supplies the mandatory _fields of the running interpreter.",
+     floors={"ALIGN-emit": 3, "ORDER": 4, "CTOR": 1},
+     technique="linear-form length algebra; structural sequence analysis; constructor-call conformance against ast.<Node>._fields",
+     not_decided="behaviour of the executed artefacts, identifier validity of type strings, values of defaults")
+
+spec("C07", "Parsing faithful to Python's view",
+     [lambda prog, rep, tier: D.rule_det1(prog, rep, tier, scope=prog.reachable([prog.fn("parse.function"), prog.fn("parse.class_"), prog.fn("parse._merge_inner_function")]), accepted=DET1_ACCEPTED),
+      A.rule_align_parse, O.rule_sigcover],
+     "Necessary conditions: (DET-1) on the parse path no iteration order of an unordered collection reaches the parameter mapping (order independent of run-to-run "
+     "variation); (ALIGN-parse) signature defaults stay aligned with their arguments; (SIGCOVER) args, kwonlyargs and **kwarg each reach the result on some read that "
+     "is not guarded by docstring-derived data.",
+     floors={"DET-1": 2, "ALIGN-parse": 1, "SIGCOVER": 3},
+     technique="unordered-value dataflow with order-sensitive-effect classification; length algebra; guard (control-dependence) analysis of signature reads",
+     not_decided="that the order is the source order (documented-first is value-level), precedence of documented information, prose attribution, the inspect path")
+
+spec("C08", "Fixed point after one pass",
+     [TB.rule_table_announce],
+     "Necessary condition: (TABLE-announce b) each writer of the default sentence recognises its own sentence as 'already present' - either by calling the reader "
+     "itself or by a substring of the written phrase - otherwise one more sentence is appended on every pass.",
+     floors={"TABLE-announce": 3},
+     technique="constant folding of writer phrase / reader announcement tables; guard analysis of the writer",
+     not_decided="byte identity of the 2nd and 3rd emission in general (quote guards, indentation, wrapping are value-level)")
+
+spec("C09", "sync makes targets agree",
+     [C.rule_call_direct, C.rule_call_dispatch, C2.rule_cli2, V.rule_visit1, F.rule_file5, F.rule_file2c],
+     "Necessary conditions: (CALL) every call through the sync dispatch table binds to its callee's signature for every table row and branch (create / append / replace), "
+     "on top of 290+ directly resolved calls; (CLI-2) no accepted combination of the three kinds dereferences an option that was not given (192 abstract states); (VISIT-1) "
+     "every visit_<T> override of the replacer replaces under the location predicate or delegates; (FILE-5) an appended definition starts on a new line; (FILE-2c) an "
+     "existing, found definition is left unwritten only when its tree equals the replacement.",
+     floors={"CALL": 8, "CLI-2": 1, "VISIT-1": 2, "FILE-5": 1, "FILE-2c": 1},
+     technique="signature binding over resolved and table-dispatched calls; finite abstract interpretation of option presence; CFG path enumeration; visitor-protocol check",
+     not_decided="that the parsed targets equal the truth IR (values); method target absent from the file (a bare function is appended)")
+
 spec("C10", "sync idempotent / truth untouched / truthful report",
      [F.rule_file0, F.rule_file1_truth, F.rule_file2, F.rule_file2b],
-     "Structural necessary conditions of C10 decided on the source: (FILE-1) no call from the sync worker that can reach a write "
-     "sink is reachable for the truth file - each is guarded by a comparison of the target filename with the truth file; (FILE-2) on "
-     "every enumerated path of _conform_filename the returned/printed changed-flag is true iff a write lies on the path; (FILE-2b) "
-     "the in-place rewrite is control-dependent on an AST-inequality test.",
+     "Necessary conditions: (FILE-1) every call from the sync worker that can reach a write sink is guarded by a comparison of the target filename with the truth file; "
+     "(FILE-2) on every enumerated path of _conform_filename the returned and printed changed-flag is true iff a write lies on the path; (FILE-2b) the in-place rewrite is "
+     "control-dependent on an AST-inequality test.",
      floors={"FILE-1": 1, "FILE-2": 4, "FILE-2b": 1},
-     technique="call-graph reachability of write sinks, syntactic guard/control-dependence analysis, exhaustive CFG path enumeration",
-     not_decided="byte identity of a second run (needs emit∘parse to be a fixed point: value-level); growth by repeated append when the lookup cannot find what was appended")
+     technique="call-graph reachability of write sinks, guard/control-dependence analysis, exhaustive CFG path enumeration",
+     not_decided="byte identity of a second run (needs emit.parse to be a fixed point: value-level); growth by repeated append when the lookup cannot find what was appended")
 
-from sa.rules import call as C
-from sa.rules import cli as CLI
+spec("C11", "sync preserves the rest",
+     [M.rule_modf, F.rule_file5, V.rule_visit2, V.rule_visit6, V.rule_visit4],
+     "Necessary conditions: (MOD-F) between reading a target module and writing it back the only field-visible writes on the tree are the replacer's or identity-preserving "
+     "re-listings, the reader's docstring re-indent being disabled at the call site; (FILE-5) appended text starts on a new line so the file still parses; (VISIT-2) at most "
+     "one node is replaced; (VISIT-6) locations are compared by exact equality; (VISIT-4) locations are built inductively, so only the addressed node can match.",
+     floors={"MOD-F": 4, "FILE-5": 1, "VISIT-2": 1, "VISIT-6": 3, "VISIT-4": 3},
+     technique="frame rule over AST field writes on the read->write path; guard analysis; visitor-protocol checks",
+     not_decided="that black/ast.unparse keep every other statement's tree (trusted); statements inside a replaced function (function targets are never replaced today: VISIT-1)")
 
-spec("C19", "gen writes one well-formed definition per entry",
-     [C.rule_call_getattr, F.rule_file6, CLI.rule_cli1],
-     "tmp", floors={})
-spec("C09", "sync makes targets agree",
-     [C.rule_call_direct, C.rule_call_dispatch],
-     "tmp", floors={})
+spec("C12", "Deterministic output",
+     [named(D.rule_det1, "rule_det1_all", accepted=DET1_ACCEPTED), D.rule_det1b, D.rule_det2, D.rule_det3],
+     "Full structural claim over every function of the package: (DET-1) no iteration order of an unordered collection (set displays/calls, set algebra on dict views, names/"
+     "parameters/attributes that only receive such values) has an order-sensitive effect; (DET-1b) key order of parameter dicts is unobservable; (DET-2) no volatile source "
+     "(id, hash, clocks, random, pid, unsorted listings, environment other than the documented width) anywhere; (DET-3) no function writes state that outlives the call "
+     "(module globals, module-level mutable objects, function/class attributes, mutated mutable defaults, memoised mutable results).",
+     floors={"DET-1": 20, "DET-2": 1, "DET-3": 1},
+     technique="unordered-value dataflow (interprocedural through parameters and instance attributes), source inventory, persistent-state write inventory",
+     not_decided="nothing structural is left out; trusted: determinism of ast, textwrap, black, yaml, json, pickle for the values they are given; objects with address-bearing repr are outside the input domain")
 
-from sa.rules import det as D
+spec("C13", "Non-interference through shared inputs",
+     [M.rule_mod1_2, M.rule_mod3],
+     "Decided by an alias/ownership abstraction of the dict IR (levels IR / params-returns / parameter dict / carried body): (MOD-1) no emitter changes the shape (keys, "
+     "parameter set, order) of the IR it was given; (MOD-2) carried body nodes are not transformed in place; (MOD-5) no emit-path helper writes into a parameter dict "
+     "of the caller's IR (every such write goes to an owned copy); (MOD-3) parsers write AST fields of their input only after rebinding it to a copy on every path.",
+     floors={"MOD-5": 5, "MOD-3": 3},
+     technique="flow-sensitive abstract interpretation over IR levels with interprocedural (function, kinds) summaries; CFG must-pass-through for copies",
+     not_decided="value-level effects of reads; helpers reached only through unresolved dynamic calls")
 
-spec("C12", "output is a deterministic function of the input",
-     [D.rule_det1, D.rule_det1b, D.rule_det2, D.rule_det3],
-     "tmp", floors={})
+spec("C14", "sync_properties changes exactly the addressed property",
+     [F.rule_file1_input, F.rule_file7, M.rule_modf, M.rule_modf2, CLI.rule_cli1],
+     "Necessary conditions: (FILE-1) no value derived from the input filename reaches the path of a write sink; (FILE-7) the single write of the output file comes after all "
+     "pairs and every returning path after the transformer ran tests `.replaced` with a raising failing branch; (MOD-F) only the addressed node is field-mutated on the "
+     "read->write path; (MOD-F2) the node taken from the input tree is copied before it is mutated/grafted; (CLI-1) CLI dests bind to the worker's signature.",
+     floors={"FILE-1": 2, "FILE-7": 2, "MOD-F": 4, "MOD-F2": 1, "CLI-1": 2},
+     technique="taint over the call graph, CFG path facts, frame rule, ownership of foreign nodes",
+     not_decided="that the addressed node is the right one (C15), eval mode (executes the input module)")
 
-from sa.rules import visit as V
+spec("C15", "Dotted locations",
+     [named(V.rule_visit3, "rule_visit3", location_inductive=V.location_is_inductive), V.rule_visit4, V.rule_visit2, V.rule_visit6],
+     "Necessary conditions: (VISIT-3) typestate over the CFG of find_in_ast: a path segment is consumed only after the previous one was matched and a node is answered only "
+     "in state MATCHED; (VISIT-3b) answers decided by `_location == search` alone are only accepted while the annotation is inductive; (VISIT-4) every `_location` is built "
+     "from the parent's location; (VISIT-2) replace at most once; (VISIT-6) locations are compared by exact equality only.",
+     floors={"VISIT-3": 4, "VISIT-4": 4, "VISIT-2": 1, "VISIT-6": 3},
+     technique="three-state typestate dataflow on a hand-built statement CFG; data-dependence of location assignments",
+     not_decided="full functional correctness of the resolver against an independent one")
 
-spec("C15", "dotted locations",
-     [lambda p, r, t: V.rule_visit3(p, r, t, location_inductive=V.location_is_inductive), V.rule_visit4, V.rule_visit2, V.rule_visit6, V.rule_visit1],
-     "tmp", floors={})
-spec("C16", "bodies verbatim", [V.rule_visit5], "tmp")
+spec("C16", "Bodies carried verbatim",
+     [V.rule_visit5, TB.rule_table_argparse],
+     "Necessary conditions: (VISIT-5) the parameter->self.<parameter> renamer rewrites only names in its set, handles every scope-introducing node kind, and its set is exactly "
+     "the IR's parameter names as given (computed before the return entry is folded in); (TABLE-argparse) the argparse recognisers pin down receiver and attribute, so only "
+     "the emitter's own statements are treated as interface and every other statement stays in the carried body.",
+     floors={"VISIT-5": 3, "TABLE-argparse": 10},
+     technique="visitor-coverage check against the grammar's scope-introducing node kinds; reaching-definition check of the rename set; recogniser constant extraction",
+     not_decided="positional special cases of body splicing (slices of the runtime body list), trailing-return handling")
 
-from sa.rules import align as A
+spec("C17", "Defaults through prose",
+     [TB.rule_table_announce],
+     "Necessary conditions: (TABLE-announce a) the sentence the writer produces contains an announcement the reader looks for; (c) the docstring writer skips writing a default "
+     "only when the prose contains something the reader would recognise as an announcement (decided by calling the reader itself, or by substrings that contain an announcement).",
+     floors={"TABLE-announce": 3},
+     technique="constant folding of the announcement tables, guard analysis of the writer",
+     not_decided="the numeric/boolean coercion ladder, end-of-value scan, removal leaving prose unchanged (character-level)")
 
-spec("C06", "emitted code valid", [A.rule_align_emit, A.rule_align_parse], "tmp")
+spec("C18", "Wrapping / line length transparent",
+     [T.rule_typeflow, T.rule_wrap_last],
+     "Necessary conditions: (TYPEFLOW) the configured width read from the environment passes int()/float() before every numeric sink (width= of textwrap, comparison with "
+     "len()); (WRAP-LAST) no reader of prose (default-sentence scanner) is applied to an already word-wrapped string.",
+     floors={"TYPEFLOW": 2, "WRAP-LAST": 5},
+     technique="type-state taint from environment reads to numeric sinks across modules; intra-procedural taint from wrapping calls to reader calls",
+     not_decided="parse(wrapped) == parse(unwrapped) in general")
 
-from sa.rules import mod as M
+spec("C19", "gen writes one definition per entry",
+     [C.rule_call_getattr, F.rule_file6, O.rule_allpair, CLI.rule_cli1],
+     "Necessary conditions: (CALL) for each --type value the getattr(emit, ...) call binds to the selected emitter's signature; (FILE-6) the existing-output guard dominates "
+     "the gen call with a no-return failing branch; (ALL-PAIR) __all__ is built from the list filled exactly once per mapping entry with the expression that names the "
+     "emitted definition, after the definitions are joined; (CLI-1) gen's CLI dests bind to gen's signature.",
+     floors={"CALL": 3, "FILE-6": 5, "ALL-PAIR": 2, "CLI-1": 2},
+     technique="finite-domain constant folding of dynamic dispatch; CFG path facts; def-use of the __all__ list",
+     not_decided="that each definition describes its source object; import hoisting")
 
-spec("C13", "non-interference", [M.rule_mod1_2, M.rule_mod3], "tmp")
-spec("C11", "sync preserves rest", [M.rule_modf, M.rule_modf2], "tmp")
-
-from sa.rules import typeflow as T
-
-spec("C18", "wrapping transparent", [T.rule_typeflow, T.rule_wrap_last], "tmp")
-
-from sa.rules import table as TB
-
-spec("C01", "docstring round trip", [TB.rule_table_style], "tmp")
-spec("C02", "class round trip", [TB.rule_table_cvar], "tmp")
-spec("C03", "function round trip", [TB.rule_table_kind], "tmp")
-spec("C04", "argparse round trip", [TB.rule_table_argparse], "tmp")
-spec("C17", "defaults through prose", [TB.rule_table_announce], "tmp")
-
-from sa.rules import order as O
-
-spec("C07", "parse faithful", [O.rule_order, O.rule_sigcover, O.rule_allpair], "tmp")
-
-from sa.rules import null as N
-
-spec("C08", "fixed point", [N.rule_null1, N.rule_null2], "tmp")
-
-from sa.rules import cli2 as C2
-
-spec("C20", "rejected invocations", [C2.rule_cli2], "tmp")
-SPECS["C09"]["rules"].append(F.rule_file2c)
+spec("C20", "Rejected or failing invocations never damage files",
+     [F.rule_file6, CLI.rule_cli1, C2.rule_cli2, C.rule_call_dispatch, C.rule_call_getattr, F.rule_file3, F.rule_file4],
+     "Necessary conditions: (FILE-6) every path of main() reaching a worker has established that worker's validations with a no-return failing branch; (CLI-1) dests bind to "
+     "worker signatures; (CLI-2, CALL) no accepted argument combination ends in a None dereference or an unbindable call; (FILE-3) emit.file renders and formats before it "
+     "opens the file; (FILE-4) a file that may exist is replaced atomically.",
+     floors={"FILE-6": 5, "CLI-1": 2, "CLI-2": 1, "CALL": 8, "FILE-3": 1, "FILE-4": 1},
+     technique="CFG path facts over main(); finite abstract interpretation of option presence; signature binding; syntactic dominance of rendering over open()",
+     not_decided="exit status / usage text; faults inside third-party code")
